@@ -199,6 +199,27 @@ class KeyedList(Generic[ItemType, KeyType], MutableSequence, KeyedBase):  # pyli
             pass
         return super().__contains__(value)
 
+    def reverse(self):
+        # The `MutableSequence` mixin reverses by swapping items pairwise, which
+        # transiently duplicates keys; reversing the underlying list is safe
+        # because the key index does not depend on item order.
+        self._list.reverse()
+
+    def extend(self, values):
+        # Validate all incoming items before adding any of them, so that a
+        # rejected item does not leave the container partially extended.
+        staged = {}
+        for value in list(values):
+            item, key = self._validate_item(value)
+            if key in self._dict or key in staged:
+                raise ValueError(
+                    f"Item with key `{repr(key)}` already in `{type_label(self._type)}`."
+                )
+            staged[key] = item
+        for key, item in staged.items():
+            self._list.append(item)
+            self._dict[key] = item
+
     # Implement dict-like lookups by key
 
     def keys(self):
